@@ -37,7 +37,7 @@ def flow(rule, extra_assume=()):
         "rule": rule,
         "assumptions": FLOW_ASSUME + list(extra_assume),
         "bounds": FLOW_BOUNDS,
-        "deadline": {"quick": 600, "thorough": 3000},
+        "deadline": {"quick": 600, "thorough": 1200},
     }
 
 
@@ -87,7 +87,7 @@ PROPERTIES["C07"] = {
                     "spacings from a listed set; shapes bounded"],
     "bounds": {"quick": {"shapes": "profile 2..5, raster 2x2 2x3 3x2 3x3", "depth": "n (<=6 nodes), 3 (3x3)"},
                "thorough": {"shapes": "+ profile 6 8, raster 2x4 4x2 3x4 4x4", "depth": "n (<=6), 5 (3x3), 3 (larger)"}},
-    "deadline": {"quick": 600, "thorough": 3000},
+    "deadline": {"quick": 600, "thorough": 1200},
 }
 PROPERTIES["C17"] = {
     "engine": "sse",
@@ -105,7 +105,7 @@ PROPERTIES["C17"] = {
     "assumptions": ["override maps have at most 2 entries", "shapes bounded as listed"],
     "bounds": {"quick": {"shapes": "profile 2 3 4; raster 2x2 2x3 3x3"},
                "thorough": {"shapes": "+ profile 6; raster 3x2 3x4 4x4; 2 overrides on 3x3"}},
-    "deadline": {"quick": 600, "thorough": 3000},
+    "deadline": {"quick": 600, "thorough": 1200},
 }
 PROPERTIES["C18"] = {
     "engine": "sse",
@@ -122,7 +122,7 @@ PROPERTIES["C18"] = {
                     "areas compared with relative tolerance 1e-11"],
     "bounds": {"quick": {"meshes": "2401 x 3 jitters x 2-6 vertex orders"},
                "thorough": {"meshes": "2401 x 4 jitters x 6 vertex orders"}},
-    "deadline": {"quick": 600, "thorough": 3000},
+    "deadline": {"quick": 600, "thorough": 1200},
 }
 
 
@@ -147,7 +147,7 @@ PROPERTIES["C09"] = {
                     "accumulate()/basins() before the first update_routes and updates without an unmasked base "
                     "level are outside the documented domain (skipped, counted)"],
     "bounds": {"quick": {"depth": "5 (4 on the cache-less grid)"}, "thorough": {"depth": "6 (5 on the cache-less grid)"}},
-    "deadline": {"quick": 600, "thorough": 3000},
+    "deadline": {"quick": 600, "thorough": 1200},
 }
 PROPERTIES["C16"] = {
     "engine": "sse",
@@ -166,7 +166,7 @@ PROPERTIES["C16"] = {
                     "field space is not)"],
     "bounds": {"quick": {"programs": "all valid of length <= 4 with 1-2 snapshots (522)"},
                "thorough": {"programs": "+ combined graph+elevation snapshots; 6 grids"}},
-    "deadline": {"quick": 600, "thorough": 3000},
+    "deadline": {"quick": 600, "thorough": 1200},
 }
 PROPERTIES["C20"] = {
     "engine": "sse",
@@ -183,7 +183,7 @@ PROPERTIES["C20"] = {
     "assumptions": ["operator kinds limited to the seven listed (+ combined snapshot in thorough)"],
     "bounds": {"quick": {"programs": "7 + 7^2 + 7^3 + 7^4 = 2800, 3 grids"},
                "thorough": {"programs": "8 + 8^2 + 8^3 + 8^4 = 4680, 6 grids"}},
-    "deadline": {"quick": 600, "thorough": 3000},
+    "deadline": {"quick": 600, "thorough": 1200},
 }
 
 
@@ -205,7 +205,7 @@ PROPERTIES["C15"] = {
     "assumptions": FLOW_ASSUME[1:3] + ["value maps v0 and v3 (one-ulp steps); thresholds other than 16 only with v0"],
     "bounds": {"quick": {"grids": "profile 6 8; raster 3x3 3x4(every 9th) 4x4(k=2) 6x6(every 5th interior pattern); 2 meshes"},
                "thorough": {"grids": "all patterns on 3x4 and 6x6; looped 4x4; k=4 on 3x3; 3 meshes"}},
-    "deadline": {"quick": 600, "thorough": 3000},
+    "deadline": {"quick": 600, "thorough": 1200},
 }
 
 
@@ -227,7 +227,7 @@ PROPERTIES["C12"] = {
     "assumptions": SPL_ASSUME,
     "bounds": {"quick": {"fields": "all 3^6 on profiles and 2x3, every 7th/23rd of 3^9 on 3x3 and meshes"},
                "thorough": {"fields": "all 3^9 on 3x3 and the first mesh, 4x4 two-level every 7th"}},
-    "deadline": {"quick": 600, "thorough": 3000},
+    "deadline": {"quick": 600, "thorough": 1200},
 }
 PROPERTIES["C13"] = dict(PROPERTIES["C12"])
 PROPERTIES["C13"].update({
@@ -252,7 +252,7 @@ PROPERTIES["C14"] = {
     "assumptions": ["shapes 3x3 3x4 4x3 4x5 5x4 (+5x5 3x6 6x3), spacings (1,1) (1,2) (0.5,3), K in {1e-3,1,1e3}, "
                     "dt in {0,1e-3,1,1e6}; variable K over {K,4K}: all assignments on 3x4 (every 37th in quick)"],
     "bounds": {"quick": {"variable K patterns on 3x4": "every 37th of 4095"}, "thorough": {"variable K patterns on 3x4": "all 4095"}},
-    "deadline": {"quick": 600, "thorough": 3000},
+    "deadline": {"quick": 600, "thorough": 1200},
 }
 
 
@@ -289,7 +289,7 @@ PROPERTIES["C08"] = {
                     "a caller-side use of something the library handed out (e.g. a dangling reference returned by an "
                     "iterator) is keyed by the harness stage instead of a library line"],
     "bounds": {"quick": {"stride": "flow 96, basin 64, others 8"}, "thorough": {"stride": "flow 6, basin 4, hist 2, others 1"}},
-    "deadline": {"quick": 900, "thorough": 3000},
+    "deadline": {"quick": 900, "thorough": 1200},
 }
 
 
@@ -329,7 +329,7 @@ PROPERTIES["C11"] = {
                          "operation_sequences": "length <= 3 at bound 0, length <= 2 at bound 1 (+ length 3 over {r3,p,z3}), 1-4 workers"},
                "thorough": {"workers": "2-3", "preemptions": "3 (single pattern, un-cached), unbounded (cached), 2 elsewhere",
                             "operation_sequences": "length <= 4 at bound 0, length <= 3 at bound 1, length <= 2 at bound 2, 1-4 workers"}},
-    "deadline": {"quick": 600, "thorough": 3000},
+    "deadline": {"quick": 600, "thorough": 1200},
 }
 
 
@@ -360,5 +360,5 @@ PROPERTIES["C10"] = {
                     "spin-loop rule and bounds as in C11"],
     "bounds": {"quick": {"workers": "2 explored (bound 1), 3/4/8 first 64 schedules", "histories": "<= 2 calls"},
                "thorough": {"workers": "2-3 explored (bound 1-2), 3/4/5/8/16 first 64 schedules", "histories": "<= 4 calls (capped at 300000 executions)"}},
-    "deadline": {"quick": 900, "thorough": 3000},
+    "deadline": {"quick": 900, "thorough": 1200},
 }
